@@ -643,4 +643,444 @@ theorem encode_decoded {r : Rule} (h : RecurDomain r) : encode (recurCanon (norm
   intro kv _
   exact pairText_normItem kv
 
+/-! ## FREQ first -/
+
+def FREQ : Str := ['F', 'R', 'E', 'Q']
+def RSCALE : Str := ['R', 'S', 'C', 'A', 'L', 'E']
+
+theorem partNames_encode {r : Rule} (h : RecurDomain r) (hne : r ≠ []) :
+    partNames (encode r) = odKeys (recurCanon r) := by
+  unfold partNames
+  rw [split_encode h hne, List.map_map]
+  unfold odKeys
+  apply List.map_congr_left
+  intro kv hkv
+  simp only [Function.comp_def, split_pairText kv (canon_items_ok h kv hkv), List.headD_cons]
+
+/-- `canonsort_keys` with the order of the class puts FREQ first, or RSCALE first and FREQ second -/
+theorem freqFirst_canonsort (keys : List Str) (hk : keys.Nodup) (hf : FREQ ∈ keys) :
+    freqFirstNames (canonsort keys Gen.recurCanonicalOrder) = true := by
+  rw [canonsort_spec' keys _ hk, dedupLast_of_nodup _ order_nodup]
+  obtain ⟨tl, htl⟩ : ∃ tl, Gen.recurCanonicalOrder = RSCALE :: FREQ :: tl := ⟨_, order_head⟩
+  rw [htl]
+  have hf' : (['F', 'R', 'E', 'Q'] : Str) ∈ keys := hf
+  by_cases hr : (['R', 'S', 'C', 'A', 'L', 'E'] : Str) ∈ keys
+  · simp [List.filter_cons, hf', hr, freqFirstNames, FREQ, RSCALE]
+  · simp [List.filter_cons, hf', hr, freqFirstNames, FREQ, RSCALE]
+
+theorem freqFirst_encode {r : Rule} (h : RecurDomain r) (hf : FREQ ∈ odKeys r) :
+    freqFirstNames (partNames (encode r)) = true := by
+  have hne : r ≠ [] := by intro e; subst e; simp at hf
+  rw [partNames_encode h hne]
+  show freqFirstNames (odKeys (cdSortedItems upper r Gen.recurCanonicalOrder)) = true
+  rw [keys_sortedItems _ h.1]
+  exact freqFirst_canonsort _ h.1.1 hf
+
+/-! ## the RECUR grammar -/
+
+def intRange (signed : Bool) (lo hi : Nat) : PartVal → Bool
+  | .int z => (signed || decide (0 ≤ z)) && decide (lo ≤ z.natAbs) && decide (z.natAbs ≤ hi)
+  | _ => false
+
+/-- the typed value is one RFC 5545 / RFC 7529 allows for the rule part named `k` (ranges of the
+    ABNF comments: seconds 0-60, minutes 0-59, hours 0-23, month days and week numbers signed,
+    year days and set positions 1-366 signed, months 1-12 with optional leap suffix) -/
+def rfcValOk (k : Str) (v : PartVal) : Bool :=
+  if k = ['F', 'R', 'E', 'Q'] then (match v with | .freq t => frequencies.contains (upper t) | _ => false)
+  else if k = ['U', 'N', 'T', 'I', 'L'] then (match v with | .until d => untilOk d | _ => false)
+  else if k = ['C', 'O', 'U', 'N', 'T'] then (match v with | .int z => decide (0 ≤ z) | _ => false)
+  else if k = ['I', 'N', 'T', 'E', 'R', 'V', 'A', 'L'] then (match v with | .int z => decide (0 ≤ z) | _ => false)
+  else if k = ['B', 'Y', 'S', 'E', 'C', 'O', 'N', 'D'] then intRange false 0 60 v
+  else if k = ['B', 'Y', 'M', 'I', 'N', 'U', 'T', 'E'] then intRange false 0 59 v
+  else if k = ['B', 'Y', 'H', 'O', 'U', 'R'] then intRange false 0 23 v
+  else if k = ['B', 'Y', 'D', 'A', 'Y'] then (match v with | .weekday t => weekdayText (upper t) | _ => false)
+  else if k = ['B', 'Y', 'M', 'O', 'N', 'T', 'H', 'D', 'A', 'Y'] then intRange true 1 31 v
+  else if k = ['B', 'Y', 'Y', 'E', 'A', 'R', 'D', 'A', 'Y'] then intRange true 1 366 v
+  else if k = ['B', 'Y', 'W', 'E', 'E', 'K', 'N', 'O'] then intRange true 1 53 v
+  else if k = ['B', 'Y', 'M', 'O', 'N', 'T', 'H'] then (match v with | .month n _ => decide (1 ≤ n ∧ n ≤ 12) | _ => false)
+  else if k = ['B', 'Y', 'S', 'E', 'T', 'P', 'O', 'S'] then intRange true 1 366 v
+  else if k = ['W', 'K', 'S', 'T'] then (match v with | .weekday t => weekDays.contains (upper t) | _ => false)
+  else if k = ['R', 'S', 'C', 'A', 'L', 'E'] then (match v with | .text s => rfcIanaToken s | _ => false)
+  else if k = ['S', 'K', 'I', 'P'] then (match v with | .skip t => skipValues.contains t | _ => false)
+  else false
+
+theorem natToStr_length (n : Nat) :
+    (n < 10 → (natToStr n).length = 1) ∧ (n < 100 → (natToStr n).length ≤ 2) ∧ (n < 1000 → (natToStr n).length ≤ 3) := by
+  refine ⟨fun h => by rw [natToStr_lt10 n h]; rfl, fun h => ?_, fun h => ?_⟩
+  · by_cases h1 : n < 10
+    · rw [natToStr_lt10 n h1]; simp
+    · rw [natToStr_2 n (by omega) h]; simp
+  · by_cases h1 : n < 10
+    · rw [natToStr_lt10 n h1]; simp
+    · by_cases h2 : n < 100
+      · rw [natToStr_2 n (by omega) h2]; simp
+      · rw [natToStr_3 n (by omega) h]; simp
+
+theorem natToStr_head (n : Nat) : ∃ c cs, natToStr n = c :: cs ∧ isDigit c = true := by
+  cases hs : natToStr n with
+  | nil => exact absurd hs (natToStr_ne_nil n)
+  | cons c cs => exact ⟨c, cs, rfl, natToStr_digits n c (by rw [hs]; simp)⟩
+
+theorem rfcOrd_natToStr (signed : Bool) (md lo hi n : Nat) (hl : (natToStr n).length ≤ md) (h1 : lo ≤ n) (h2 : n ≤ hi) :
+    rfcOrd signed md lo hi (natToStr n) = true := by
+  obtain ⟨c, cs, hs, hc⟩ := natToStr_head n
+  have hp : c ≠ '+' := isDigit_ne c '+' hc
+  have hm : c ≠ '-' := isDigit_ne c '-' hc
+  unfold rfcOrd
+  have hh : ((natToStr n).head? == some '+' || (natToStr n).head? == some '-') = false := by
+    rw [hs]; simp [hp, hm]
+  simp only [hh, Bool.and_false, Bool.false_eq_true, if_false, isDigitStr_natToStr, ofDigits_natToStr,
+    Bool.true_and, Bool.and_eq_true, decide_eq_true_eq]
+  exact ⟨⟨hl, h1⟩, h2⟩
+
+theorem rfcOrd_neg (md lo hi n : Nat) (hl : (natToStr n).length ≤ md) (h1 : lo ≤ n) (h2 : n ≤ hi) :
+    rfcOrd true md lo hi ('-' :: natToStr n) = true := by
+  unfold rfcOrd
+  simp only [List.head?_cons, List.tail_cons, Bool.true_and, beq_self_eq_true, Bool.or_true, if_true,
+    isDigitStr_natToStr, ofDigits_natToStr, Bool.and_eq_true, decide_eq_true_eq]
+  exact ⟨⟨hl, h1⟩, h2⟩
+
+theorem rfcOrd_intTo (signed : Bool) (md lo hi : Nat) (z : Int)
+    (hmd : ∀ n, n ≤ hi → (natToStr n).length ≤ md) (h : intRange signed lo hi (.int z) = true) :
+    rfcOrd signed md lo hi (intTo z) = true := by
+  simp only [intRange, Bool.and_eq_true, Bool.or_eq_true, decide_eq_true_eq] at h
+  obtain ⟨⟨hs, h1⟩, h2⟩ := h
+  unfold intTo intToStr
+  split
+  · next hneg =>
+    have : signed = true := by
+      rcases hs with hs | hs
+      · exact hs
+      · omega
+    subst this
+    exact rfcOrd_neg md lo hi _ (hmd _ h2) h1 h2
+  · exact rfcOrd_natToStr signed md lo hi _ (hmd _ h2) h1 h2
+
+theorem len2 (hi : Nat) (h : hi < 100) : ∀ n, n ≤ hi → (natToStr n).length ≤ 2 :=
+  fun n hn => (natToStr_length n).2.1 (by omega)
+theorem len3 (hi : Nat) (h : hi < 1000) : ∀ n, n ≤ hi → (natToStr n).length ≤ 3 :=
+  fun n hn => (natToStr_length n).2.2 (by omega)
+
+theorem digits_nonneg (z : Int) (h : 0 ≤ z) : isDigitStr (intTo z) = true := by
+  obtain ⟨n, rfl⟩ := Int.eq_ofNat_of_zero_le h
+  unfold intTo
+  rw [intToStr_nat]
+  exact isDigitStr_natToStr n
+
+theorem rep2_noop (a b : Char) (r : Str) (s : Str) (h : a ∉ s) : rep2 a b r s = s := by
+  induction s with
+  | nil => rfl
+  | cons c cs ih =>
+    have hc : c ≠ a := fun e => h (by simp [e])
+    have hcs : a ∉ cs := fun hm => h (by simp [hm])
+    cases cs with
+    | nil => rfl
+    | cons d ds =>
+      simp only [rep2, hc, false_and, if_false]
+      rw [ih hcs]
+
+def tokenC (c : Char) : Bool := isDigit c || ('a' ≤ c && c ≤ 'z') || ('A' ≤ c && c ≤ 'Z') || c == '-'
+
+theorem tokenC_ne (c d : Char) (h : tokenC c = true) (hd : tokenC d = false := by decide) : c ≠ d := by
+  intro e; subst e; rw [h] at hd; cases hd
+
+/-- an `iana-token` is written as itself -/
+theorem escapeChar_token (s : Str) (h : ∀ c ∈ s, tokenC c = true) : escapeChar s = s := by
+  have hbs : BS ∉ s := fun hm => tokenC_ne BS BS (h _ hm) (by decide) rfl
+  have hcr : CR ∉ s := fun hm => tokenC_ne CR CR (h _ hm) (by decide) rfl
+  have hn : norm s = s := by
+    unfold norm
+    rw [rep2_noop BS 'N' _ s hbs, rep2_noop CR LF _ s hcr]
+  rw [escapeChar_of_norm hn]
+  clear hbs hcr hn
+  induction s with
+  | nil => rfl
+  | cons c cs ih =>
+    have hc := h c (by simp)
+    have e : escC c = [c] := by
+      have h1 : c ≠ BS := tokenC_ne c BS hc (by decide)
+      have h2 : c ≠ ';' := tokenC_ne c ';' hc
+      have h3 : c ≠ ',' := tokenC_ne c ',' hc
+      have h4 : c ≠ LF := tokenC_ne c LF hc (by decide)
+      unfold escC
+      rw [if_neg h1, if_neg h2, if_neg h3, if_neg h4]
+    simp only [List.flatMap_cons, e, List.singleton_append]
+    rw [ih (fun x hx => h x (by simp [hx]))]
+
+theorem skip_grammar : skipValues.all (fun t => rfcSkip (escapeChar t)) = true := by decide
+
+
+/-- the rule-part names of RFC 5545 section 3.3.10 and RFC 7529 -/
+def rfcNames : List Str :=
+  [['F', 'R', 'E', 'Q'],
+   ['U', 'N', 'T', 'I', 'L'],
+   ['C', 'O', 'U', 'N', 'T'],
+   ['I', 'N', 'T', 'E', 'R', 'V', 'A', 'L'],
+   ['B', 'Y', 'S', 'E', 'C', 'O', 'N', 'D'],
+   ['B', 'Y', 'M', 'I', 'N', 'U', 'T', 'E'],
+   ['B', 'Y', 'H', 'O', 'U', 'R'],
+   ['B', 'Y', 'D', 'A', 'Y'],
+   ['B', 'Y', 'M', 'O', 'N', 'T', 'H', 'D', 'A', 'Y'],
+   ['B', 'Y', 'Y', 'E', 'A', 'R', 'D', 'A', 'Y'],
+   ['B', 'Y', 'W', 'E', 'E', 'K', 'N', 'O'],
+   ['B', 'Y', 'M', 'O', 'N', 'T', 'H'],
+   ['B', 'Y', 'S', 'E', 'T', 'P', 'O', 'S'],
+   ['W', 'K', 'S', 'T'],
+   ['R', 'S', 'C', 'A', 'L', 'E'],
+   ['S', 'K', 'I', 'P']]
+
+theorem spec_none (k : Str) (h : k ∉ rfcNames) : rfcPartSpec k = none := by
+  simp only [rfcNames, List.mem_cons, List.not_mem_nil, or_false, not_or] at h
+  obtain ⟨h1, h2, h3, h4, h5, h6, h7, h8, h9, h10, h11, h12, h13, h14, h15, h16⟩ := h
+  unfold rfcPartSpec
+  rw [if_neg h1, if_neg h2, if_neg h3, if_neg h4, if_neg h5, if_neg h6, if_neg h7, if_neg h8, if_neg h9, if_neg h10, if_neg h11, if_neg h12, if_neg h13, if_neg h14, if_neg h15, if_neg h16]
+
+theorem spec_FREQ : rfcPartSpec ['F', 'R', 'E', 'Q'] = some (false, freqText) := rfl
+theorem valOk_FREQ (v : PartVal) : rfcValOk ['F', 'R', 'E', 'Q'] v = (match v with | .freq t => frequencies.contains (upper t) | _ => false) := rfl
+theorem grammar_FREQ (v : PartVal) (hv : rfcValOk ['F', 'R', 'E', 'Q'] v = true) : (freqText) (valText v) = true := by
+  rw [valOk_FREQ] at hv
+  cases v <;> simp only [intRange, Bool.false_eq_true] at hv
+  next t =>
+      have hm : upper t ∈ frequencies := by simpa using hv
+      have := ICal.C03.frequency_grammar (upper t) hm
+      unfold freqTo at this
+      rw [upper_idem'] at this
+      show freqText (upper t) = true
+      simp [freqText, this]
+
+theorem spec_UNTIL : rfcPartSpec ['U', 'N', 'T', 'I', 'L'] = some (false, rfcEnddate) := rfl
+theorem valOk_UNTIL (v : PartVal) : rfcValOk ['U', 'N', 'T', 'I', 'L'] v = (match v with | .until d => untilOk d | _ => false) := rfl
+theorem grammar_UNTIL (v : PartVal) (hv : rfcValOk ['U', 'N', 'T', 'I', 'L'] v = true) : (rfcEnddate) (valText v) = true := by
+  rw [valOk_UNTIL] at hv
+  cases v <;> simp only [intRange, Bool.false_eq_true] at hv
+  next d =>
+      unfold untilOk at hv
+      show rfcEnddate (dddTo d) = true
+      unfold rfcEnddate
+      split at hv
+      · next pd =>
+        have := ICal.C03.date_grammar_text pd hv
+        simp only [dddTo, atomTo, this, Bool.true_or]
+      · next pt =>
+        have := ICal.C03.datetime_grammar pt hv
+        simp only [dddTo, atomTo, dateTimeText, this, Option.isSome_some, Bool.or_true]
+      · cases hv
+
+theorem spec_COUNT : rfcPartSpec ['C', 'O', 'U', 'N', 'T'] = some (false, isDigitStr) := rfl
+theorem valOk_COUNT (v : PartVal) : rfcValOk ['C', 'O', 'U', 'N', 'T'] v = (match v with | .int z => decide (0 ≤ z) | _ => false) := rfl
+theorem grammar_COUNT (v : PartVal) (hv : rfcValOk ['C', 'O', 'U', 'N', 'T'] v = true) : (isDigitStr) (valText v) = true := by
+  rw [valOk_COUNT] at hv
+  cases v <;> simp only [intRange, Bool.false_eq_true] at hv
+  next z => exact digits_nonneg z (by simpa using hv)
+
+theorem spec_INTERVAL : rfcPartSpec ['I', 'N', 'T', 'E', 'R', 'V', 'A', 'L'] = some (false, isDigitStr) := rfl
+theorem valOk_INTERVAL (v : PartVal) : rfcValOk ['I', 'N', 'T', 'E', 'R', 'V', 'A', 'L'] v = (match v with | .int z => decide (0 ≤ z) | _ => false) := rfl
+theorem grammar_INTERVAL (v : PartVal) (hv : rfcValOk ['I', 'N', 'T', 'E', 'R', 'V', 'A', 'L'] v = true) : (isDigitStr) (valText v) = true := by
+  rw [valOk_INTERVAL] at hv
+  cases v <;> simp only [intRange, Bool.false_eq_true] at hv
+  next z => exact digits_nonneg z (by simpa using hv)
+
+theorem spec_BYSECOND : rfcPartSpec ['B', 'Y', 'S', 'E', 'C', 'O', 'N', 'D'] = some (true, rfcOrd false 2 0 60) := rfl
+theorem valOk_BYSECOND (v : PartVal) : rfcValOk ['B', 'Y', 'S', 'E', 'C', 'O', 'N', 'D'] v = intRange false 0 60 v := rfl
+theorem grammar_BYSECOND (v : PartVal) (hv : rfcValOk ['B', 'Y', 'S', 'E', 'C', 'O', 'N', 'D'] v = true) : (rfcOrd false 2 0 60) (valText v) = true := by
+  rw [valOk_BYSECOND] at hv
+  cases v <;> simp only [intRange, Bool.false_eq_true] at hv
+  next z => exact rfcOrd_intTo false 2 0 60 z (len2 60 (by decide)) (by simpa [intRange] using hv)
+
+theorem spec_BYMINUTE : rfcPartSpec ['B', 'Y', 'M', 'I', 'N', 'U', 'T', 'E'] = some (true, rfcOrd false 2 0 59) := rfl
+theorem valOk_BYMINUTE (v : PartVal) : rfcValOk ['B', 'Y', 'M', 'I', 'N', 'U', 'T', 'E'] v = intRange false 0 59 v := rfl
+theorem grammar_BYMINUTE (v : PartVal) (hv : rfcValOk ['B', 'Y', 'M', 'I', 'N', 'U', 'T', 'E'] v = true) : (rfcOrd false 2 0 59) (valText v) = true := by
+  rw [valOk_BYMINUTE] at hv
+  cases v <;> simp only [intRange, Bool.false_eq_true] at hv
+  next z => exact rfcOrd_intTo false 2 0 59 z (len2 59 (by decide)) (by simpa [intRange] using hv)
+
+theorem spec_BYHOUR : rfcPartSpec ['B', 'Y', 'H', 'O', 'U', 'R'] = some (true, rfcOrd false 2 0 23) := rfl
+theorem valOk_BYHOUR (v : PartVal) : rfcValOk ['B', 'Y', 'H', 'O', 'U', 'R'] v = intRange false 0 23 v := rfl
+theorem grammar_BYHOUR (v : PartVal) (hv : rfcValOk ['B', 'Y', 'H', 'O', 'U', 'R'] v = true) : (rfcOrd false 2 0 23) (valText v) = true := by
+  rw [valOk_BYHOUR] at hv
+  cases v <;> simp only [intRange, Bool.false_eq_true] at hv
+  next z => exact rfcOrd_intTo false 2 0 23 z (len2 23 (by decide)) (by simpa [intRange] using hv)
+
+theorem spec_BYDAY : rfcPartSpec ['B', 'Y', 'D', 'A', 'Y'] = some (true, weekdayText) := rfl
+theorem valOk_BYDAY (v : PartVal) : rfcValOk ['B', 'Y', 'D', 'A', 'Y'] v = (match v with | .weekday t => weekdayText (upper t) | _ => false) := rfl
+theorem grammar_BYDAY (v : PartVal) (hv : rfcValOk ['B', 'Y', 'D', 'A', 'Y'] v = true) : (weekdayText) (valText v) = true := by
+  rw [valOk_BYDAY] at hv
+  cases v <;> simp only [intRange, Bool.false_eq_true] at hv
+  next t => exact hv
+
+theorem spec_BYMONTHDAY : rfcPartSpec ['B', 'Y', 'M', 'O', 'N', 'T', 'H', 'D', 'A', 'Y'] = some (true, rfcOrd true 2 1 31) := rfl
+theorem valOk_BYMONTHDAY (v : PartVal) : rfcValOk ['B', 'Y', 'M', 'O', 'N', 'T', 'H', 'D', 'A', 'Y'] v = intRange true 1 31 v := rfl
+theorem grammar_BYMONTHDAY (v : PartVal) (hv : rfcValOk ['B', 'Y', 'M', 'O', 'N', 'T', 'H', 'D', 'A', 'Y'] v = true) : (rfcOrd true 2 1 31) (valText v) = true := by
+  rw [valOk_BYMONTHDAY] at hv
+  cases v <;> simp only [intRange, Bool.false_eq_true] at hv
+  next z => exact rfcOrd_intTo true 2 1 31 z (len2 31 (by decide)) (by simpa [intRange] using hv)
+
+theorem spec_BYYEARDAY : rfcPartSpec ['B', 'Y', 'Y', 'E', 'A', 'R', 'D', 'A', 'Y'] = some (true, rfcOrd true 3 1 366) := rfl
+theorem valOk_BYYEARDAY (v : PartVal) : rfcValOk ['B', 'Y', 'Y', 'E', 'A', 'R', 'D', 'A', 'Y'] v = intRange true 1 366 v := rfl
+theorem grammar_BYYEARDAY (v : PartVal) (hv : rfcValOk ['B', 'Y', 'Y', 'E', 'A', 'R', 'D', 'A', 'Y'] v = true) : (rfcOrd true 3 1 366) (valText v) = true := by
+  rw [valOk_BYYEARDAY] at hv
+  cases v <;> simp only [intRange, Bool.false_eq_true] at hv
+  next z => exact rfcOrd_intTo true 3 1 366 z (len3 366 (by decide)) (by simpa [intRange] using hv)
+
+theorem spec_BYWEEKNO : rfcPartSpec ['B', 'Y', 'W', 'E', 'E', 'K', 'N', 'O'] = some (true, rfcOrd true 2 1 53) := rfl
+theorem valOk_BYWEEKNO (v : PartVal) : rfcValOk ['B', 'Y', 'W', 'E', 'E', 'K', 'N', 'O'] v = intRange true 1 53 v := rfl
+theorem grammar_BYWEEKNO (v : PartVal) (hv : rfcValOk ['B', 'Y', 'W', 'E', 'E', 'K', 'N', 'O'] v = true) : (rfcOrd true 2 1 53) (valText v) = true := by
+  rw [valOk_BYWEEKNO] at hv
+  cases v <;> simp only [intRange, Bool.false_eq_true] at hv
+  next z => exact rfcOrd_intTo true 2 1 53 z (len2 53 (by decide)) (by simpa [intRange] using hv)
+
+theorem spec_BYMONTH : rfcPartSpec ['B', 'Y', 'M', 'O', 'N', 'T', 'H'] = some (true, monthText) := rfl
+theorem valOk_BYMONTH (v : PartVal) : rfcValOk ['B', 'Y', 'M', 'O', 'N', 'T', 'H'] v = (match v with | .month n _ => decide (1 ≤ n ∧ n ≤ 12) | _ => false) := rfl
+theorem grammar_BYMONTH (v : PartVal) (hv : rfcValOk ['B', 'Y', 'M', 'O', 'N', 'T', 'H'] v = true) : (monthText) (valText v) = true := by
+  rw [valOk_BYMONTH] at hv
+  cases v <;> simp only [intRange, Bool.false_eq_true] at hv
+  next n l =>
+      have hb : 1 ≤ n ∧ n ≤ 12 := by simpa using hv
+      obtain ⟨m, rfl⟩ := Int.eq_ofNat_of_zero_le (by omega : 0 ≤ n)
+      have := ICal.C03.month_grammar m l (by omega) (by omega)
+      show monthText (vMonthTo (m : Int) l) = true
+      simp [monthText, this]
+
+theorem spec_BYSETPOS : rfcPartSpec ['B', 'Y', 'S', 'E', 'T', 'P', 'O', 'S'] = some (true, rfcOrd true 3 1 366) := rfl
+theorem valOk_BYSETPOS (v : PartVal) : rfcValOk ['B', 'Y', 'S', 'E', 'T', 'P', 'O', 'S'] v = intRange true 1 366 v := rfl
+theorem grammar_BYSETPOS (v : PartVal) (hv : rfcValOk ['B', 'Y', 'S', 'E', 'T', 'P', 'O', 'S'] v = true) : (rfcOrd true 3 1 366) (valText v) = true := by
+  rw [valOk_BYSETPOS] at hv
+  cases v <;> simp only [intRange, Bool.false_eq_true] at hv
+  next z => exact rfcOrd_intTo true 3 1 366 z (len3 366 (by decide)) (by simpa [intRange] using hv)
+
+theorem spec_WKST : rfcPartSpec ['W', 'K', 'S', 'T'] = some (false, rfcWeekdayOnly) := rfl
+theorem valOk_WKST (v : PartVal) : rfcValOk ['W', 'K', 'S', 'T'] v = (match v with | .weekday t => weekDays.contains (upper t) | _ => false) := rfl
+theorem grammar_WKST (v : PartVal) (hv : rfcValOk ['W', 'K', 'S', 'T'] v = true) : (rfcWeekdayOnly) (valText v) = true := by
+  rw [valOk_WKST] at hv
+  cases v <;> simp only [intRange, Bool.false_eq_true] at hv
+  next t => exact hv
+
+theorem spec_RSCALE : rfcPartSpec ['R', 'S', 'C', 'A', 'L', 'E'] = some (false, rfcIanaToken) := rfl
+theorem valOk_RSCALE (v : PartVal) : rfcValOk ['R', 'S', 'C', 'A', 'L', 'E'] v = (match v with | .text s => rfcIanaToken s | _ => false) := rfl
+theorem grammar_RSCALE (v : PartVal) (hv : rfcValOk ['R', 'S', 'C', 'A', 'L', 'E'] v = true) : (rfcIanaToken) (valText v) = true := by
+  rw [valOk_RSCALE] at hv
+  cases v <;> simp only [intRange, Bool.false_eq_true] at hv
+  next s =>
+      have ht : ∀ c ∈ s, tokenC c = true := by
+        simp only [rfcIanaToken, Bool.and_eq_true] at hv
+        exact fun c hc => List.all_eq_true.1 hv.2 c hc
+      show rfcIanaToken (escapeChar s) = true
+      rw [escapeChar_token s ht]; exact hv
+
+theorem spec_SKIP : rfcPartSpec ['S', 'K', 'I', 'P'] = some (false, rfcSkip) := rfl
+theorem valOk_SKIP (v : PartVal) : rfcValOk ['S', 'K', 'I', 'P'] v = (match v with | .skip t => skipValues.contains t | _ => false) := rfl
+theorem grammar_SKIP (v : PartVal) (hv : rfcValOk ['S', 'K', 'I', 'P'] v = true) : (rfcSkip) (valText v) = true := by
+  rw [valOk_SKIP] at hv
+  cases v <;> simp only [intRange, Bool.false_eq_true] at hv
+  next t =>
+      have hm : t ∈ skipValues := by simpa using hv
+      exact List.all_eq_true.1 skip_grammar t hm
+
+/-- the text of an RFC-admissible value is in the value grammar of its rule part -/
+theorem val_grammar (k : Str) (v : PartVal) (isList : Bool) (g : Str → Bool)
+    (hs : rfcPartSpec k = some (isList, g)) (hv : rfcValOk k v = true) : g (valText v) = true := by
+  by_cases hmem : k ∈ rfcNames
+  · simp only [rfcNames, List.mem_cons, List.not_mem_nil, or_false] at hmem
+    rcases hmem with rfl | rfl | rfl | rfl | rfl | rfl | rfl | rfl | rfl | rfl | rfl | rfl | rfl | rfl | rfl | rfl
+    · rw [spec_FREQ] at hs; cases hs; exact grammar_FREQ v hv
+    · rw [spec_UNTIL] at hs; cases hs; exact grammar_UNTIL v hv
+    · rw [spec_COUNT] at hs; cases hs; exact grammar_COUNT v hv
+    · rw [spec_INTERVAL] at hs; cases hs; exact grammar_INTERVAL v hv
+    · rw [spec_BYSECOND] at hs; cases hs; exact grammar_BYSECOND v hv
+    · rw [spec_BYMINUTE] at hs; cases hs; exact grammar_BYMINUTE v hv
+    · rw [spec_BYHOUR] at hs; cases hs; exact grammar_BYHOUR v hv
+    · rw [spec_BYDAY] at hs; cases hs; exact grammar_BYDAY v hv
+    · rw [spec_BYMONTHDAY] at hs; cases hs; exact grammar_BYMONTHDAY v hv
+    · rw [spec_BYYEARDAY] at hs; cases hs; exact grammar_BYYEARDAY v hv
+    · rw [spec_BYWEEKNO] at hs; cases hs; exact grammar_BYWEEKNO v hv
+    · rw [spec_BYMONTH] at hs; cases hs; exact grammar_BYMONTH v hv
+    · rw [spec_BYSETPOS] at hs; cases hs; exact grammar_BYSETPOS v hv
+    · rw [spec_WKST] at hs; cases hs; exact grammar_WKST v hv
+    · rw [spec_RSCALE] at hs; cases hs; exact grammar_RSCALE v hv
+    · rw [spec_SKIP] at hs; cases hs; exact grammar_SKIP v hv
+  · rw [spec_none k hmem] at hs; cases hs
+
+/-- a part whose name is an RFC rule part, with one value unless the part takes a list, every value
+    admissible -/
+def ItemRfc (kv : Str × List PartVal) : Prop :=
+  ∃ isList g, rfcPartSpec kv.1 = some (isList, g) ∧ (isList = true ∨ kv.2.length = 1) ∧
+    ∀ v ∈ kv.2, rfcValOk kv.1 v = true
+
+/-- rules of the RECUR grammar: in the codec domain, every part an RFC part with admissible values,
+    and the names satisfy the side conditions (FREQ present, UNTIL and COUNT not both, SKIP only with
+    RSCALE; "at most once" is the dictionary invariant) -/
+def GrammarDomain (r : Rule) : Prop :=
+  RecurDomain r ∧ (∀ kv ∈ r, ItemRfc kv) ∧ rfcNamesOk (odKeys r) = true
+
+theorem mapOpt_map {α β γ : Type} (f : β → Option γ) (h : α → β) (l : List α) :
+    mapOpt f (l.map h) = mapOpt (fun a => f (h a)) l := by
+  induction l with
+  | nil => rfl
+  | cons a as ih => simp only [List.map_cons, mapOpt, ih]
+
+theorem rfcRecurPart_pairText (kv : Str × List PartVal) (h : ItemOk kv) (hr : ItemRfc kv) :
+    rfcRecurPart (pairText kv) = some kv.1 := by
+  obtain ⟨isList, g, hs, hl, hv⟩ := hr
+  unfold rfcRecurPart
+  rw [split_pairText kv h]
+  simp only [hs]
+  rw [split_join ',' _ (by simpa using h.2.2.2.1) (fun x hx => (valTexts_clean kv h x hx).no_comma)]
+  have h1 : (isList || (kv.2.map valText).length == 1) = true := by
+    rcases hl with hl | hl
+    · simp [hl]
+    · simp [hl]
+  have h2 : (kv.2.map valText).all g = true := by
+    rw [List.all_eq_true]
+    intro x hx
+    obtain ⟨v, hv', rfl⟩ := List.mem_map.1 hx
+    exact val_grammar kv.1 v isList g hs (hv v hv')
+  simp only [h1, h2, Bool.and_self, if_true]
+
+theorem rfcRecurNames_encode {r : Rule} (h : RecurDomain r) (hne : r ≠ []) (hr : ∀ kv ∈ r, ItemRfc kv) :
+    rfcRecurNames (encode r) = some (odKeys (recurCanon r)) := by
+  unfold rfcRecurNames
+  rw [split_encode h hne, mapOpt_map]
+  exact mapOpt_ok _ Prod.fst _ (fun kv hkv =>
+    rfcRecurPart_pairText kv (canon_items_ok h kv hkv) (hr kv (mem_sortedItems h.1 hkv)))
+
+theorem nodupB_iff (l : List Str) : nodupB l = true ↔ l.Nodup := by
+  induction l with
+  | nil => simp [nodupB]
+  | cons a as ih => simp [nodupB, ih]
+
+theorem rfcNamesOk_perm {l l' : List Str} (hp : l.Perm l') : rfcNamesOk l = rfcNamesOk l' := by
+  have hc : ∀ a, l.contains a = l'.contains a := by
+    intro a
+    rw [Bool.eq_iff_iff]
+    simp [hp.mem_iff]
+  have hn : nodupB l = nodupB l' := by
+    rw [Bool.eq_iff_iff, nodupB_iff, nodupB_iff]
+    exact hp.nodup_iff
+  unfold rfcNamesOk
+  rw [hn, hc, hc, hc, hc, hc]
+
+theorem namesOk_freq {l : List Str} (h : rfcNamesOk l = true) : FREQ ∈ l := by
+  unfold rfcNamesOk at h
+  simp only [Bool.and_eq_true] at h
+  simpa [FREQ] using h.1.1.2
+
+/-- the text of a rule of the grammar domain is a RECUR value with FREQ first (after RSCALE) -/
+theorem grammar_encode {r : Rule} (h : GrammarDomain r) : rfcRecurFreqFirst (encode r) = true := by
+  obtain ⟨hd, hr, hn⟩ := h
+  have hf : FREQ ∈ odKeys r := namesOk_freq hn
+  have hne : r ≠ [] := by intro e; subst e; simp at hf
+  unfold rfcRecurFreqFirst
+  rw [rfcRecurNames_encode hd hne hr]
+  have hk : odKeys (recurCanon r) = canonsort (odKeys r) Gen.recurCanonicalOrder :=
+    keys_sortedItems _ hd.1
+  simp only [hk, Bool.and_eq_true]
+  exact ⟨by rw [rfcNamesOk_perm (canonsort_perm_keys _ _)]; exact hn, freqFirst_canonsort _ hd.1.1 hf⟩
+
+theorem freqFirst_imp_grammar (t : Str) (h : rfcRecurFreqFirst t = true) : rfcRecur t = true := by
+  unfold rfcRecurFreqFirst at h
+  unfold rfcRecur
+  split at h
+  · next ns hns => simp only [Bool.and_eq_true] at h; exact h.1
+  · cases h
+
 end ICal.Recur
